@@ -868,6 +868,14 @@ func main() {
 			if err := c.LoadReplay(&cs); err != nil {
 				infra("%v", err)
 			}
+			if cs.Kind == "lifecycle" {
+				var lc LifeCase
+				if err := c.LoadReplay(&lc); err != nil {
+					infra("%v", err)
+				}
+				replayLife(c, lc)
+				return
+			}
 			c.Case(rig.Canon(cs), true, "replay", func() interface{} { return cs })
 			runAny(c, cs, true)
 			return
